@@ -142,6 +142,10 @@ func (e *Enc) rangeInstr(fr *Frame, st *State, in *ssa.Range) {
 		ks := e.P.W.SortOf(t.Key())
 		empty := Val{fmt.Sprintf("((as const %s) false)", ArraySort(ks, SBool)), ArraySort(ks, SBool)}
 		st.iters[in] = empty
+		if st.iterN == nil {
+			st.iterN = map[ssa.Value]Val{}
+		}
+		st.iterN[in] = BV(64, 0)
 		fr.vals[in] = e.val(fr, st, in.X) // the iterator remembers the map reference
 	default:
 		e.abstractions["range over string (iteration abstracted)"] = true
@@ -181,5 +185,17 @@ func (e *Enc) nextInstr(fr *Frame, st *State, in *ssa.Next) {
 	e.assumeValid(st, k, mt.Key())
 	e.assumeValid(st, v, mt.Elem())
 	st.iters[rng] = e.name("visited", Ite(ok, Store(visited, k, True), visited))
+	// a range over a map delivers each key exactly once: when it ends, the count is the map's length
+	cnt, haveN := st.iterN[rng]
+	if !haveN {
+		cnt = e.fresh("itn", BVSort(64))
+	}
+	e.assume(st, Implies(Not(ok), Eq(cnt, e.mapLen(st, m))))
+	e.assume(st, Implies(ok, BVCmp("bvslt", cnt, e.mapLen(st, m))))
+	if st.iterN == nil {
+		st.iterN = map[ssa.Value]Val{}
+	}
+	st.iterN[rng] = e.name("itn", Ite(ok, BVOp("bvadd", cnt, BV(64, 1)), cnt))
+	fr.lastIter = rng
 	fr.tuples[in] = []Val{ok, k, v}
 }
